@@ -19,9 +19,17 @@ from .c13 import _uf
 
 
 def load_fluid_with_ufs():
-    ufs = {n: _uf(n) for n in ("z_factor_DAK", "density_DAK", "viscosity_Sutton", "compressibility_DAK", "b_factor_DAK",
-                               "b_o_Standing", "viscosity_beggs_robinson", "pressure_bubblepoint_Standing",
-                               "b_water_McCain", "viscosity_water_McCain")}
+    import bluebonnet.fluids.gas as _rg
+    import bluebonnet.fluids.oil as _ro
+    import bluebonnet.fluids.water as _rw
+    real = {}
+    for m_, names in ((_rg, ("z_factor_DAK", "density_DAK", "viscosity_Sutton", "compressibility_DAK", "b_factor_DAK")),
+                      (_ro, ("b_o_Standing", "viscosity_beggs_robinson", "pressure_bubblepoint_Standing")),
+                      (_rw, ("b_water_McCain", "viscosity_water_McCain"))):
+        for n_ in names:
+            real[n_] = getattr(m_, n_)
+    # bound to the real signatures: keyword arguments and defaults are recorded as they would reach the real function
+    ufs = {n: _uf(n, like=f) for n, f in real.items()}
     gas = load_sym("bluebonnet.fluids.gas", **SS.rebind())
     mod = load_sym("bluebonnet.fluids.fluid", pd=pd_shim.PD, make_nonhydrocarbon_properties=gas.make_nonhydrocarbon_properties,
                    pseudocritical_point_Sutton=gas.pseudocritical_point_Sutton, **ufs, **SS.rebind())
@@ -69,7 +77,8 @@ def replay_hussainy(model):
 
 
 def job_hussainy(job):
-    mu, z = _uf("viscosity_Sutton"), _uf("z_factor_DAK")
+    import bluebonnet.fluids.gas as _rg
+    mu, z = _uf("viscosity_Sutton", like=_rg.viscosity_Sutton), _uf("z_factor_DAK", like=_rg.z_factor_DAK)
     gas = load_sym("bluebonnet.fluids.gas", viscosity_Sutton=mu, z_factor_DAK=z, **SS.rebind())
     job.encoded(gas, "pseudopressure_Hussainy")
     job.stub("scipy.integrate.quad: contract stub (returns the integral as an uninterpreted symbol; records the integrand "
@@ -138,6 +147,24 @@ def job_transform(job, n):
         job.prove(f"transform[{n}]/reach", pr.pc, expect="sat")
 
 
+def replay_builder(model, dry="dry gas", pmax=45):
+    """Real build_pvt_gas on the model's composition: its pseudopressure column against the stand-alone transform of its own
+    (pressure, viscosity, z-factor) columns, first row 0, strictly increasing."""
+    import numpy as np
+    from bluebonnet.fluids import fluid as rf
+    m = model_floats(model, ["N2", "H2S", "CO2", "sg", "T"], default=dict(N2=0.0, H2S=0.0, CO2=0.0, sg=0.7, T=200.0))
+    gv = {"N2": m["N2"], "H2S": m["H2S"], "CO2": m["CO2"], "Gas Specific Gravity": m["sg"], "Reservoir Temperature (deg F)": m["T"]}
+    df = rf.build_pvt_gas(gv, dry, float(pmax))
+    pp = np.asarray(df["pseudopressure"], float)
+    alt = np.asarray(rf.pseudopressure(np.asarray(df["pressure"], float), np.asarray(df["viscosity"], float), np.asarray(df["z-factor"], float)), float)
+    problems = []
+    if pp.shape != alt.shape or np.any(np.abs(pp - alt) > 1e-9 * np.abs(alt).max()):
+        problems.append(f"table pseudopressure {pp.tolist()} vs stand-alone transform of the same columns {alt.tolist()} (pressures {np.asarray(df['pressure'], float).tolist()})")
+    if pp[0] != 0 or np.any(np.diff(pp) <= 0):
+        problems.append(f"not 0 first / strictly increasing: {pp.tolist()}")
+    return bool(problems), {"what": f"build_pvt_gas(..., {dry!r}, {pmax}): " + ("; ".join(problems) or "routes agree"), "inputs": m}
+
+
 def job_builder(job, pmax):
     mod, gas, ufs = load_fluid_with_ufs()
     job.encoded(mod, "build_pvt_gas", "pseudopressure")
@@ -156,9 +183,11 @@ def job_builder(job, pmax):
             n = len(p)
             alt = mod.pseudopressure(df["pressure"], df["viscosity"], df["z-factor"]).d
             job.prove(f"builder[{dry}]/table route == stand-alone transform[path{k}]",
-                      pr.pc + [T.b_or(*[not_close(a, b, abs_tol=Fraction(0)) for a, b in zip(pp, alt)])], bound=f"{n} rows")
+                      pr.pc + [T.b_or(*[not_close(a, b, abs_tol=Fraction(0)) for a, b in zip(pp, alt)])], bound=f"{n} rows",
+                      replay=(replay_builder, {"dry": dry, "pmax": pmax}))
             job.prove(f"builder[{dry}]/first row 0, strictly increasing[path{k}]",
-                      pr.pc + [T.b_or(T.b_not(T.b_eq0(P(pp[0]))), *[T.b_le(P(pp[j + 1]), P(pp[j])) for j in range(n - 1)])], bound=f"{n} rows")
+                      pr.pc + [T.b_or(T.b_not(T.b_eq0(P(pp[0]))), *[T.b_le(P(pp[j + 1]), P(pp[j])) for j in range(n - 1)])], bound=f"{n} rows",
+                      replay=(replay_builder, {"dry": dry, "pmax": pmax}))
             job.prove(f"builder[{dry}]/reach[path{k}]", pr.pc, expect="sat")
 
 
